@@ -44,6 +44,7 @@ func init() {
 		"Yield":       func(fr *frame, args []value) value { fr.i.yield(); return nil },
 		"Preemptions": vxPreemptions,
 		"Eq":          vxEq,
+		"YAMLAssume":  func(fr *frame, args []value) value { fr.i.path.extra["yamlassume"] = fr.i.truth(args[0]); return nil },
 		"And":         func(fr *frame, args []value) value { return norm(types.Typ[types.Bool], fr.i.tb.And(boolTerm(fr.i, args[0]), boolTerm(fr.i, args[1]))) },
 		"Or":          func(fr *frame, args []value) value { return norm(types.Typ[types.Bool], fr.i.tb.Or(boolTerm(fr.i, args[0]), boolTerm(fr.i, args[1]))) },
 		"Not":         func(fr *frame, args []value) value { return norm(types.Typ[types.Bool], fr.i.tb.Not(boolTerm(fr.i, args[0]))) },
